@@ -33,7 +33,7 @@ LEVEL_TEXT = ('exploration: every (function, regime) cell of the table is evalua
 LEVEL_NOTE = ('trusted base: release mpmath 1.3.0 + the tree at 3p+300 bits agreeing to 2^-(p+32); a defect that is identical '
               'in both and at every precision is not seen; inputs outside the listed cells are not covered')
 TECHNIQUE = 'runtime reference-model monitor: consensus accuracy oracle on every observed special-function value'
-SHARD_TIMEOUT = {'quick': 1800, 'thorough': 7200}     # wall watchdog only; the shards stop on their own CPU budget
+SHARD_TIMEOUT = {'quick': 1800, 'thorough': 21600}     # wall watchdog only; the shards stop on their own CPU budget
 NSHARDS = 16
 
 # high-precision special points, value = n / 2^256
